@@ -15,7 +15,9 @@ THEOREMS = ['cost_bound', 'cost_bound_sp', 'prim_ticks_bound', 'ticks_bound_scro
             # extension (b): weighted iteration totals, rectangle clip
             'ticks_bound', 'ticks_bound_sp', 'rect_clip', 'ticks_bound_dollar', 'ticks_bound_rqcra', 'dollar_arms_only', 'rqcra_arm_only',
             # extension (c): hex-macro repeat groups, macro replay
-            'hexmacro_bound', 'hexmacro_bound_cond', 'hexmacro_linear', 'macro_replay_bound', 'macro_invokes_half', 'macro_table_ok']
+            'hexmacro_bound', 'hexmacro_bound_cond', 'hexmacro_linear', 'macro_replay_bound', 'macro_invokes_half', 'macro_table_ok',
+            # extension (d): sixel decoder
+            'sixel_ticks_bound', 'sixel_alloc_bound', 'sixel_image_bound']
 SWEEP_LEMMAS = []
 TRUSTED = ['Coq 8.16.1 kernel + vm_compute (model evaluation in stage C); no axioms (Print Assumptions: closed)',
            'Model/Cost.v re-states the loops of Model/TermCore.v / AnsiTok.v with counters (tick_version_same_state: same state); the arms changed by the '
@@ -608,6 +610,26 @@ def state_corr_cases(ctx):
         add(inter, final, t, rng.random() < 0.5)
     return meta
 
+def sixel_payloads(ctx):
+    """sixel payloads for the decoder comparison: data characters, cursor moves, colour definitions, repeat groups (count <= 400), raster attributes (<= 300)"""
+    rng = ctx.rng
+    out = [b'', b'~', b'~~-~', b'!5~', b'!0~', b'!', b'!~', b'"1;1;10;20~', b'"1;1;7~', b'"1;1~', b'"1~', b'"1;1;2;2;2~', b'#1;2;100;0;0~', b'#1;2;100;0~',
+           b'#5~', b'#300~', b'#1;1;120;50;50~', b'!400-~', b'!3$~', b'~$~-?', b'"1;1;0;0~~', b'"1;1;3;1~-~-~', b'!12"1;1;5;5~', b'!3#1~', b'>', b'~\x80~', b'#1;3;1;1;1~']
+    alpha = b'?@ABN^n~-$' * 3 + b'!#";0123456789'
+    for _ in range(ctx.n(120, 600)):
+        k = rng.randint(1, 24)
+        b = bytearray()
+        for _ in range(k):
+            r = rng.random()
+            if r < 0.12: b += b'!%d' % rng.choice([0, 1, 2, 3, 7, 40, 400]) + bytes([rng.choice(b'?~-$n')])
+            elif r < 0.2: b += b'"%d;%d;%d;%d' % (rng.randint(0, 3), rng.randint(0, 3), rng.choice([0, 1, 5, 40, 300]), rng.choice([0, 1, 6, 7, 40, 300]))
+            elif r < 0.25: b += b'"1;1;%d' % rng.choice([0, 1, 6, 13, 300])
+            elif r < 0.32: b += b'#%d;2;%d;%d;%d' % (rng.randint(0, 20), rng.randint(0, 100), rng.randint(0, 100), rng.randint(0, 100))
+            elif r < 0.36: b += b'#%d' % rng.randint(0, 300)
+            else: b += bytes([rng.choice(alpha)])
+        out.append(bytes(b))
+    return out
+
 def macro_nest_cases(ctx):
     """(definitions, top id, depth): macro 1 is text, macro k+1 replays macro k several times (hex definitions, printable filler)"""
     rng = ctx.rng
@@ -719,13 +741,17 @@ def correspondence(ctx):
     smeta = state_corr_cases(ctx)
     st_cases = [st_case(0, w, h, len(a), a + b) for _, w, h, a, b, _, _ in smeta]
     st_exprs = ['run_state %d %d %s %s' % (w, h, zl(a), zl(b)) for _, w, h, a, b, _, _ in smeta]
-    ext_cases = hex_cases2 + nest_cases
+    sixels = sixel_payloads(ctx)
+    sixel_cases = ['c03sixel %s' % hx(b) for b in sixels]
+    sixel_exprs = ['run_sixel_cost %s' % zl(b) for b in sixels]
+    ext_cases = hex_cases2 + nest_cases + sixel_cases
     impl = ctx.impl(cases + hex_cases + glyph_cases + calib + ext_cases + st_cases, per_case_timeout=5)
-    model = ctx.model(MODEL_IMPORTS, exprs + exprs_old + extra_exprs + nest_exprs + st_exprs, timeout=900)
+    model = ctx.model(MODEL_IMPORTS, exprs + exprs_old + extra_exprs + nest_exprs + sixel_exprs + st_exprs, timeout=900)
     impl_st = impl[len(impl) - len(st_cases):]; impl = impl[:len(impl) - len(st_cases)]
     impl_ext = impl[len(impl) - len(ext_cases):]; impl = impl[:len(impl) - len(ext_cases)]
     model_st = model[len(model) - len(st_exprs):]
-    model_nest = model[len(model) - len(st_exprs) - len(nest_exprs):len(model) - len(st_exprs)]
+    model_sixel = model[len(model) - len(st_exprs) - len(sixel_exprs):len(model) - len(st_exprs)]
+    model_nest = model[len(model) - len(st_exprs) - len(sixel_exprs) - len(nest_exprs):len(model) - len(st_exprs) - len(sixel_exprs)]
     tref = min([r[1][0] for r in impl[-3:] if r and r[0] == 'ok'] or [20000])
     per_tick = max(0.05, tref / 20000.0)          # microseconds per printed character in this run
     dis = []; nontriv = set(); ratios = []; outliers = 0; dist = {}; bound_margin = []
@@ -814,6 +840,28 @@ def correspondence(ctx):
         if printed > m[0] or m[0] > m[3]:
             dis.append({'case': c, 'impl': printed, 'model': m, 'what': 'characters printed > macro_chars, or macro_chars > B * geom c fuel (macro_replay_bound)'}); continue
         if printed > 0: nontriv.add(c)
+    # extension (d): the sixel decoder: accept / reject, rows, bytes of the image = rows x longest row <= cap (sixel_image_bound), iterations within the bound
+    for j, b_ in enumerate(sixels):
+        m = model_sixel[j]; r = impl_ext[len(hexs) + len(nest) + j]; c = sixel_cases[j]; ext_n += 1
+        if m is None:
+            dis.append({'case': c, 'impl': r, 'model': None, 'what': 'sixel model evaluation failed'}); continue
+        if m[0] == 2:
+            if not (r and r[0] == 'panic'): dis.append({'case': c, 'impl': r, 'model': m, 'what': 'the sixel model panics (arithmetic overflow), the decoder does not'})
+            continue
+        if r is None or r[0] != 'ok':
+            dis.append({'case': c, 'impl': r, 'model': m, 'what': 'the decoder did not return; the model counts %d iterations' % m[1]}); continue
+        v = r[1]
+        if (m[0] == 0) != (v[1] == 1):
+            dis.append({'case': c, 'impl': v, 'model': m, 'what': 'sixel payload accepted / rejected differently'}); continue
+        if m[0] != 0: continue
+        it, reps, dw, dh, rows_, longest, nbytes, cap = m[1:9]
+        if v[3] != rows_ or v[4] != nbytes:
+            dis.append({'case': c, 'impl': v[1:5], 'model': m, 'what': 'sixel image: height / bytes differ (code: ok width height bytes; model: .. rows longest bytes cap)'}); continue
+        if nbytes > cap or it > len(b_) + 1 + reps:
+            dis.append({'case': c, 'impl': v[1:5], 'model': m, 'what': 'the model counters exceed sixel_image_bound / sixel_ticks_bound'}); continue
+        if v[0] > 50 * per_tick * (it + nbytes) + 50000 and v[0] > 5_000_000:
+            dis.append({'case': c, 'impl': v[0], 'model': m, 'what': 'sixel decode time beyond the 5 s limit while the model counts %d iterations' % it}); continue
+        if nbytes > 0: nontriv.add(c)
     for j, g in enumerate(glyphs):
         m = model[base2 + len(hexs) + j]; r = impl[len(cases) + len(hexs) + j]
         if m is None or r is None or r[0] != 'ok':
@@ -825,7 +873,7 @@ def correspondence(ctx):
     dis = sdis + dis
     dist['state-comparison inputs (prepared state + entry + probe)'] = len(smeta)
     ratios.sort()
-    dist['extension: hex-macro length / macro replay cases'] = ext_n
+    dist['extension: hex-macro length / macro replay / sixel decoder cases'] = ext_n
     return {'cases': len(cases) + len(old) + len(hexs) + len(glyphs) + len(smeta) + ext_n, 'disagreements': dis, 'distinct_nontrivial': len(nontriv) + snontriv,
             'distribution': {'per_control_function': dist, 'calibration_us_per_tick': round(per_tick, 4),
                              'time_over_model_ratio_median': round(ratios[len(ratios) // 2], 3) if ratios else None,
